@@ -33,6 +33,10 @@
 (* propagation), and the form operators are built on top exactly like      *)
 (* compute_form_lhs / _rhs / _functional / _action / _adjoint /            *)
 (* compute_energy_norm / extract_blocks.                                   *)
+(* The sub-elements of a MixedElement space carry their physical and their *)
+(* reference value size (VSub / USub); the offset loop of                  *)
+(* FormSplitter.argument (replace_argument = False) is transcribed next to *)
+(* extract_blocks (PosOff / CntOff / KeptPos, invariant SplitterKeepsOwn). *)
 (*                                                                         *)
 (* State machine: Build (one action per constructor) -> MkForm (one or two *)
 (* integrals) -> Apply(form operator).  The invariants relate (b) to (c)   *)
